@@ -76,7 +76,7 @@ def stale_background(schema, rm, cap_len, seed=0x33):
 
 # ---------------------------------------------------------------- plans (run inside worker processes)
 
-def plan_c01(schema, rm, mi, desc, lines, meta, res, cap=24, modes=walk.MODES, seeds=(0x10, 0x81), trials=False):
+def plan_c01(schema, rm, mi, desc, lines, meta, res, cap=24, modes=walk.ENC_MODES, seeds=(0x10, 0x81), trials=False):
     gs, dl = adaptive_bounds(rm, cap)
     labels = leaf_labels(rm)
     shapes_ = list(values.size_vectors(rm.level, gs, dl))
@@ -369,7 +369,7 @@ def choice_strings(maxlen):
     return out
 
 
-def plan_traverse(schema, rm, mi, desc, lines, meta, res, cap=4, seeds=(0x10,), maxlen=2):
+def plan_traverse(schema, rm, mi, desc, lines, meta, res, cap=4, seeds=(0x10,), maxlen=2, only_tag=False):
     from ..gen import traverse
     gs, dl = adaptive_bounds(rm, cap)
     ex = traverse.TraverseExpect(schema, rm)
@@ -381,9 +381,9 @@ def plan_traverse(schema, rm, mi, desc, lines, meta, res, cap=4, seeds=(0x10,), 
             img, placed = codec.encode(schema, rm, inst, fill=0xEE)
             for k, cs in enumerate(strings):
                 exp = ex.trace(placed, inst, cs)
-                for style in "01234":
+                for style in ("04" if only_tag else "01234"):
                   # named accessors with every iteration style; by-tag accessors (same expected trace) with two of them
-                  for tmode in (("curw", "curwt") if style in "04" else ("curw",)):
+                  for tmode in (("curwt",) if only_tag else ("curw", "curwt") if style in "04" else ("curw",)):
                     cid = "t%d" % len(meta)
                     lines.append("D %s %d %s %s %d c %s %s" % (cid, mi, tmode, img.hex() if img else "-", exp.count("\n"), cs, style))
                     lines.append(exp.rstrip("\n"))
